@@ -143,9 +143,20 @@ func ErrClass(err error) uint64 {
 // gets its own channel-key prefix and message-id offset, so that nothing of an
 // earlier history is visible to a later one (the global message-id index is
 // shared by all channels of one database).
+// pollCtx runs poll whenever the callee polls the context for cancellation.
+type pollCtx struct {
+	context.Context
+	poll func()
+}
+
+func (c pollCtx) Done() <-chan struct{} { c.poll(); return c.Context.Done() }
+func (c pollCtx) Err() error            { c.poll(); return c.Context.Err() }
+
 type Env struct {
 	// NoDumps suppresses the read-back after mutations (C09 observes crash clones instead).
 	NoDumps bool
+	// Poll, when set, runs at every context poll inside DiscardForRestore (between its batches).
+	Poll func()
 	// FS, when set, is the (crash-simulating) file system Pebble runs on; nil = the real disk.
 	FS     vfs.FS
 	dir    string
@@ -590,7 +601,7 @@ func (e *Env) compatRecords(c int, rs []Rec) []channel.Record {
 
 func IsMutation(k string) bool {
 	switch k {
-	case "append", "apply", "capp", "cbatch", "trunc", "ctrunc", "trim", "ckpt", "ckptm", "release":
+	case "append", "apply", "capp", "cbatch", "trunc", "ctrunc", "trim", "ckpt", "ckptm", "release", "discard":
 		return true
 	}
 	return false
@@ -671,6 +682,20 @@ func (e *Env) Exec(op Op) (Out, []Dump) {
 		}
 	case "ctrunc":
 		if err := e.Store(c).Truncate(op.A); err != nil {
+			fail(err)
+		} else {
+			out = Out{Kind: "XOk"}
+		}
+	case "discard":
+		// compat ChannelStore.DiscardForRestore: pages (<= 1024 rows / 8 MiB, one
+		// synchronous batch each) + a terminal partition / catalog batch.  The
+		// function polls its context before every page read, i.e. BETWEEN two
+		// batches: e.Poll (C09: crash clones) runs there.
+		dctx := context.Context(ctx)
+		if e.Poll != nil {
+			dctx = pollCtx{Context: ctx, poll: e.Poll}
+		}
+		if err := e.Store(c).DiscardForRestore(dctx); err != nil {
 			fail(err)
 		} else {
 			out = Out{Kind: "XOk"}
@@ -882,6 +907,8 @@ func CoqOp(op Op) string {
 		return vh.App("OTrunc", c, vh.N(op.A))
 	case "ctrunc":
 		return vh.App("OCTrunc", c, vh.N(op.A))
+	case "discard":
+		return vh.App("ODiscard", c)
 	case "trim":
 		return vh.App("OTrim", c, vh.N(op.A), nz(op.B), nz(op.D))
 	case "ckpt":
